@@ -109,7 +109,7 @@ type c16Field struct {
 // c16Apply: rule lists (as strings printed by the model) are parsed by the real parser,
 // applied by the real Apply to a real http.Header and compared with the model's result:
 // per case-insensitive name the same multiset of values, pinned spellings respected,
-// and the same order whenever order is defined (single key, no merge by a respelling).
+// and the same order of a name's values on the wire (keys are written in sorted order).
 func c16Apply(e *env) {
 	nCase := 0
 	e.eachCase(func(raw json.RawMessage) {
@@ -155,6 +155,7 @@ func c16Apply(e *env) {
 		res["rules"] = rs
 		if res["ok"] == true {
 			free := map[string]bool{}
+			_ = free
 			for _, n := range c.Free {
 				free[join(n)] = true
 			}
@@ -165,10 +166,16 @@ func c16Apply(e *env) {
 			}
 			got := map[string][]pv{}
 			keys := map[string][]string{}
-			for k, vs := range hh {
+			// the order on the wire: net/http writes the keys of the map in sorted order, the values of a key as stored
+			wireKeys := make([]string, 0, len(hh))
+			for k := range hh {
+				wireKeys = append(wireKeys, k)
+			}
+			sort.Strings(wireKeys)
+			for _, k := range wireKeys {
 				ln := strings.ToLower(k)
 				keys[ln] = append(keys[ln], k)
-				for _, v := range vs {
+				for _, v := range hh[k] {
 					got[ln] = append(got[ln], pv{k, v})
 				}
 			}
@@ -215,7 +222,7 @@ func c16Apply(e *env) {
 					fail("field " + n + ": values or pinned spelling differ")
 					break
 				}
-				if len(keys[n]) == 1 && !free[n] {
+				{ // (the model's "free" set is no longer needed: a respelling merges the keys in the order of the wire)
 					for i := range ex {
 						if join(ex[i].V) != gt[i].v {
 							fail("field " + n + ": value order differs")
